@@ -131,7 +131,7 @@ PLANS = {
                 thorough=[("path", "small", 1, 6), ("path", "small", 2, 3), ("cache", "tiny", 4, 3), ("pathread", "dense", 3, 5), ("pathread", "tiny", 2, 7)]),
     # ("near", universe, extra calls, shape bound): every valid shape <= (3,3)/(4,4)/(4,5) + every single further call
     "C06": dict(quick=[("valid", "small", 3, 3), ("near", "near4", 1, 4)],
-                thorough=[("valid", "small", 3, 3), ("valid", "valid4", 3, 3), ("near", "near4", 1, 5), ("near", "near4", 2, 3)]),
+                thorough=[("valid", "small", 3, 3), ("near", "near4", 1, 5), ("near", "near4", 2, 3)]),
 }
 
 
